@@ -28,7 +28,7 @@ func goodFeedBytes(ts int64, withTrip bool) []byte {
 		stop := "A01N"
 		tm := int64(ts + 600)
 		msg.Entity = append(msg.Entity, &gtfsrt.FeedEntity{Id: &id, TripUpdate: &gtfsrt.TripUpdate{
-			Trip: &gtfsrt.TripDescriptor{TripId: &tid, RouteId: &route, StartDate: &start},
+			Trip:           &gtfsrt.TripDescriptor{TripId: &tid, RouteId: &route, StartDate: &start},
 			StopTimeUpdate: []*gtfsrt.TripUpdate_StopTimeUpdate{{StopId: &stop, Arrival: &gtfsrt.TripUpdate_StopTimeEvent{Time: &tm}}},
 		}})
 	}
@@ -48,6 +48,7 @@ func genDirCase(r *Rng, tier string) map[string]any {
 	}
 	perm := r.Perm(len(dirNames))
 	entries := []any{}
+	var lastGood map[string]any
 	for i := 0; i < n && i < len(perm); i++ {
 		kinds := []string{"good", "good", "good", "goodtrip", "empty", "truncated", "garbage", "subdir", "vanish", "dangling"}
 		k := r.Pick(kinds)
@@ -57,6 +58,12 @@ func genDirCase(r *Rng, tier string) map[string]any {
 		e := map[string]any{"name": bstr(dirNames[perm[i]]), "fileKind": k}
 		if k == "good" || k == "goodtrip" {
 			e["id"] = 1700000000 + int64(r.Intn(100000))*10 + int64(i)
+			if lastGood != nil && r.P(1, 4) {
+				// a byte-identical copy of an earlier good file: still one file, still yielded once
+				e["id"] = lastGood["id"]
+				e["fileKind"] = lastGood["fileKind"]
+			}
+			lastGood = e
 		}
 		entries = append(entries, e)
 	}
@@ -104,7 +111,7 @@ func materialise(dir string, entries []any, onlyGood bool) (vanish []string, err
 type dirProp struct{}
 
 func (p *dirProp) Rule() string {
-	return "real directories of 0-8 entries with names stressing bytewise order (digits, case, punctuation, multi-byte, dot files); entry kinds: good feed, good feed with a trip, empty file, truncated message, garbage bytes, sub-directory, file deleted after listing, dangling symlink; the sequence of Next() results is compared with the model's prediction and the journal over the directory with the journal over its good files alone; distinct = distinct input JSON; non-trivial = at least one good and one bad entry"
+	return "real directories of 0-8 entries with names stressing bytewise order (digits, case, punctuation, multi-byte, dot files); entry kinds: good feed, good feed with a trip, byte-identical copies of a good feed under other names, empty file, truncated message, garbage bytes, sub-directory, file deleted after listing, dangling symlink; the sequence of Next() results is compared with the model's prediction and the journal over the directory with the journal over its good files alone; distinct = distinct input JSON; non-trivial = at least one good and one bad entry"
 }
 func (p *dirProp) N(tier string) int {
 	if tier == "thorough" {
